@@ -75,6 +75,17 @@ class FatalScenario:
                 "fatalThread": self.fatal_thread, "listEvery": self.list_every, "badflush": self.badflush,
                 "filtered": self.filtered, "fatalPrefix": f"r{self.nmsgs + 1}:"}
 
+    def behind_filter(self):
+        """the sinks the fatal message does not reach: the one behind the filter, and in the nested configuration also
+        the last one when its sub-pipeline hangs below the filtered one (drv_fatal nests the last sink one level deeper)"""
+        if self.filtered < 0:
+            return set()
+        b = {self.filtered}
+        n = len(self.sinks)
+        if self.config == "nested" and n >= 2 and self.filtered == n - 2:
+            b.add(n - 1)
+        return b
+
     def describe(self):
         return {"id": self.id, "config": self.config, "sinks": self.sinks, "messages": self.nmsgs, "fatal_thread": self.fatal_thread, "a_sink_whose_flush_fails_comes_first": self.badflush,
                 "sink_behind_a_filter_that_rejects_the_fatal_message": self.filtered,
@@ -197,7 +208,7 @@ def translate_sink(scn, j, raw, final):
         elif k == "Begin":
             if e["op"] == "ctor":
                 evs.append({"e": "Begin", "op": "ctor", "rec": 0, "len": 0})
-            elif e.get("fatal") and j == scn.filtered:
+            elif e.get("fatal") and j in scn.behind_filter():
                 pass            # the fatal message never reaches this sink
             else:
                 rec += 1
